@@ -186,9 +186,15 @@ def main():
                 ctx.fail('concurrent first use of the library: a thread\'s result differs from the single-threaded result', text, observed=observed, required=required,
                          first_use_probe=True)
             ctx.count('chaos:first-use-probe')
+            state0 = chaos.interp_state()
         mod.run(ctx)
         if getattr(mod, 'CHAOS', True):
             ctx.dist['chaos'] = chaos.stats()
+            state1 = chaos.interp_state()
+            if state1 != state0:
+                ch = [k for k in state1 if state1[k] != state0[k]]
+                ctx.fail('process-wide interpreter state changed by library calls (' + ', '.join(ch) + ')', 'noise battery: abandoned parsestream generators, lazy token streams, raising calls',
+                         observed=str({k: state1[k] for k in ch}), required=str({k: state0[k] for k in ch}), interp_state_probe=True)
     except Exception as e:
         infra_error = traceback.format_exc()
 
@@ -316,6 +322,14 @@ def do_replay(mod, prop, path):
     if (payload.get('extra') or {}).get('first_use_probe'):
         import chaos
         still = bool(chaos.first_use_probe(REPO, runs=30))
+        print('VIOLATION property=%s replay=%s' % (prop, os.path.relpath(path, VERIF)) if still else 'replay no longer fails')
+        return 1 if still else 0
+    if (payload.get('extra') or {}).get('interp_state_probe'):
+        import chaos
+        chaos.install(ctx.seed)
+        s0 = chaos.interp_state()
+        chaos._battery()
+        still = chaos.interp_state() != s0
         print('VIOLATION property=%s replay=%s' % (prop, os.path.relpath(path, VERIF)) if still else 'replay no longer fails')
         return 1 if still else 0
     rec = (payload.get('extra') or {}).get('chaos')
